@@ -96,6 +96,10 @@ pub fn cli_main(machines: Vec<Box<dyn Machine>>, enums: Vec<Box<dyn EnumMachine>
             let refs: Vec<(&dyn Machine, &spec::MachineSpec)> = paired.iter().map(|&(m, s)| (m as &dyn Machine, s as &spec::MachineSpec)).collect();
             modes::builder(&refs, get("--full-w", "8").parse().unwrap(), get("--cap", "65536").parse().unwrap(), threads)
         }
+        "debug" => {
+            let refs: Vec<(&dyn Machine, &spec::MachineSpec)> = paired.iter().map(|&(m, s)| (m as &dyn Machine, s as &spec::MachineSpec)).collect();
+            modes::debug(&refs, get("--full-n", "16").parse().unwrap(), threads)
+        }
         "enum" => modes::enums(&epaired, get("--full-n", "16").parse().unwrap(), threads),
         "replay" if paired.is_empty() => modes::replay_enum(&epaired, &get("--replay", "")),
         "replay" => modes::replay(&paired, &get("--replay", "")),
